@@ -583,8 +583,12 @@ def run_tab_loop(case):
     from vf.algos import make_run
 
     algo, eps = case["algo"], case["epsilon"]
-    cfg = dict(script=[[4, "T"], [6, "U"], [3, "T"]], seed=case["seed"],
+    cfg = dict(script=[[4, "T"], [6, "U"], [3, "T"]] if eps else
+               [[9, "T"], [14, "U"], [7, "T"]], seed=case["seed"],
                total_timesteps=80 if eps else 800, snapshots=False, logger=False,
+               # greedy runs: frequent self-transitions and long episodes (the
+               # same row is updated and acted on again)
+               self_loop_p=0.0 if eps else 0.35,
                n_states=4,
                n_actions=3, epsilon=eps, gamma=0.9, learning_rate=0.3)
     run = make_run(algo, cfg)
